@@ -1,0 +1,13 @@
+//go:build verif
+// +build verif
+
+// Verification hook for property C06 (region heartbeat processing). Exports only; compiled only with -tags verif.
+package cluster
+
+import "github.com/tikv/pd/server/core"
+
+// VerifC06ProcessRegionHeartbeat calls the unexported processRegionHeartbeat (HandleRegionHeartbeat without the
+// operator dispatch, which needs a running coordinator).
+func (c *RaftCluster) VerifC06ProcessRegionHeartbeat(region *core.RegionInfo) error {
+	return c.processRegionHeartbeat(region)
+}
